@@ -31,7 +31,7 @@ CLAIMS.update({
          '(2) node-level pipeline lemma on harmless_harmful_filter::visit + set_diff_context_from_opts + diff::is_filtered_out: a '
          'node on which a harmful predicate fires (or no predicate at all) is never filtered out with default options; '
          '(3) has_incompatible_changes is true whenever a net removed function/variable exists; (4) abidiff main maps '
-         'has_net_changes/has_incompatible_changes to bits 4/8.',
+         'has_net_changes/has_incompatible_changes to bits 4/8; (0) nine detection predicates of abg-comp-filter.cc (unit predicates) equal their definition over stub diff nodes.',
          'Scoped to the anchored mechanisms. Assumed (not within reach of CBMC\'s C++ front end): the diff tree contains a node on '
          'which the predicate fires, category propagation to parent nodes, redundancy marking, and '
          'apply_filters_and_compute_diff_stats counting an unfiltered changed interface.', '5 C05'),
@@ -40,7 +40,7 @@ CLAIMS.update({
          'exhaustive), on set_diff_context_from_opts (harmless categories switched off iff !--harmless), on '
          'categorize_harmless_diff_node (only harmless bits, documented kinds get their bit) and the node-level pipeline lemma: a '
          'node on which only harmless predicates fire is filtered by default and shown with --harmless.',
-         'Scoped as C05; the detection predicates themselves (IR level) are ghost inputs.', '5 C07'),
+         'Scoped as C05; the detection predicates themselves (IR level) are ghost inputs, except access_changed, has_enumerator_insertion and static_data_member_added_or_removed (bounded: <= 2+2 members), which are under contract in unit predicates.', '5 C07'),
  'C15': ('proof',
          'Contract on the real die_member_offset / read_and_convert_DW_at_bit_offset / die_constant_data_member_location / '
          'eval_quickly: for every DIE whose member location is DW_AT_data_bit_offset, a constant or a DW_OP_plus_uconst expression, '
